@@ -2,4 +2,6 @@ from propcfg.common import *
 from propcfg.tmplcommon import *
 
 CFG = dict(TMPL_C06)
-CFG["proof_modules"] = ["SafeHtml.Proofs.Frozen"]
+CFG["proof_modules"] = ["SafeHtml.Proofs.Frozen", "SafeHtml.Proofs.Independence"]
+CFG["level_text"] = CFG["level_text"] + " Proofs/Independence.lean proves the first half for templates without {{template}} calls: C06_callfree_reachable — in any two reachable worlds in which the same call-free tree is installed under a name not yet analysed, the analysis has the same outcome class and, on success, execution gives the same result for every data (the analysis of a call-free template never reads the memo; the committed tree is a function of the tree alone)."
+CFG["level_note"] = "Not proved: first-analysis independence for templates WITH template calls (needs a memo-correctness invariant; false without excluding the two findings memo-ignores-attr-prefix and mangled-name-collision). C06_statement is kept in Props/C06.lean."
